@@ -127,6 +127,7 @@ class Agg:
         self.violations = []
         self.harness_errors = []
         self.features = {}
+        self.odd_seeds = []
 
     def add(self, seed, res):
         self.evaluations += 1
@@ -138,6 +139,8 @@ class Agg:
             self.features[k] = self.features.get(k, 0) + 1
         oc = res.get('outcome', 'ok')
         self.outcomes[oc] = self.outcomes.get(oc, 0) + 1
+        if oc != 'ok' and len(self.odd_seeds) < 5:
+            self.odd_seeds.append([oc, seed])
         self.steps += res.get('steps', 0)
         self.vtime += res.get('vtime', 0.0)
         sig = res.get('sig')
@@ -160,7 +163,7 @@ class Agg:
             'vtime': self.vtime, 'samples': self.samples,
             'violations': self.violations,
             'harness_errors': self.harness_errors,
-            'features': self.features}
+            'features': self.features, 'odd_seeds': self.odd_seeds}
 
     def merge(self, d):
         self.evaluations += d['evaluations']
@@ -179,6 +182,7 @@ class Agg:
         self.samples.extend(d['samples'])
         self.violations.extend(d['violations'])
         self.harness_errors.extend(d['harness_errors'])
+        self.odd_seeds.extend(d.get('odd_seeds', []))
 
 
 def worker_loop(prop, base_seed, tier, wid, nworkers, n_runs, deadline,
